@@ -1,9 +1,51 @@
 import StraxModel.Driver.Parse
+import StraxModel.Model.Align
 namespace Strax.Driver
-open Strax
+open Strax Strax.Align
 
-/-- ops of property C08 (stub: no ops yet) -/
+/-- chunk of a dependency: `start~stop~rows` (rows `t:e:id,…` or `-`) -/
+def parseDepChunk (name kind : String) (s : String) : Option RawChunk :=
+  match s.splitOn "~" with
+  | [a, b, rows] => do
+    pure ⟨name, kind, some "0", ← a.toInt?, ← b.toInt?, ← parseRows rows, none, none, 1000⟩
+  | _ => none
+
+/-- one dependency: `name;kind;chunk;chunk;…` -/
+def parseDepTok (s : String) : Option (Dep × List RawChunk) :=
+  match s.splitOn ";" with
+  | name :: kind :: cs => do
+    let cs ← cs.mapM (parseDepChunk name kind)
+    pure (⟨name, kind⟩, cs)
+  | _ => none
+
+def showCall (c : Call) : String :=
+  ";".intercalate (toString c.start :: toString c.stop :: c.rows.map showRows)
+
+def showCalls (cs : List Call) : String := if cs.isEmpty then "-" else " ".intercalate (cs.map showCall)
+
+def showBools (l : List Bool) : String := if l.isEmpty then "-" else ",".intercalate (l.map fun b => if b then "1" else "0")
+
+/-- the real harness builds every `strax.Chunk` before `iter` starts, so an invalid chunk is a
+constructor error for both sides -/
+def buildDeps (ds : List (Dep × List RawChunk)) : Except Err (List Dep × List (List Chunk)) :=
+  match ds.mapM (fun (p : Dep × List RawChunk) => p.2.mapM (·.mk')) with
+  | .error e => .error e
+  | .ok cs => .ok (ds.map (·.1), cs)
+
+/-- ops of theory T4 (input alignment in `Plugin.iter`). -/
 def handleC08 : List String → Option String
+  | "c08.iter" :: strict :: deps => do
+    let st ← parseBool strict; let ds ← deps.mapM parseDepTok
+    pure <| showExcept showCalls (buildDeps ds >>= fun (d, cs) => iterModel d cs st)
+  | "c08.run" :: strict :: deps => do    -- calls and leftover
+    let st ← parseBool strict; let ds ← deps.mapM parseDepTok
+    pure <| showExcept (fun r => s!"{showCalls r.calls} | {";".intercalate (r.leftover.map showRows)}")
+      (buildDeps ds >>= fun (d, cs) => iterRun d cs st)
+  | "c08.hyp" :: strict :: t0 :: deps => do   -- hypotheses of the theorems on this input
+    let st ← parseBool strict; let t0 ← t0.toInt?; let ds ← deps.mapM parseDepTok
+    pure <| showExcept (fun (d, cs) =>
+        s!"law={showBools (cs.map lawAbidingB)} start={if startAtB t0 cs then 1 else 0} passes={if passesSufficeB d cs st then 1 else 0}")
+      (buildDeps ds)
   | _ => none
 
 end Strax.Driver
